@@ -1113,7 +1113,7 @@ impl Property for C02 {
         r
     }
     fn rule(&self) -> String {
-        "proptest-generated histories: window type (3), limit 1-5, period 10-600 ms incl. float-unlucky periods, timeout from {0, P/2, P-1, P, P+1, 1.5P, 3P, uniform}, 1-14/24 callers on 1-3 clones arriving in bursts and at gaps from {0, 1, uniform, P-1, P, P+1, 2P-1, 2P, 2P+1, 3P, 4P}, optional cancellation, poll-order choices; virtual clock. Oracle on the timestamps of inner entries only: fixed/counter - a partition of the admission sequence into consecutive windows >= P with <= limit each must exist (dynamic program); sliding log - every limit+1 consecutive admissions span >= P. Non-trivial: >= 2 callers waiting at once with a waited admission, or an arrival exactly on a window boundary with the window full; distinct by hash of the case".into()
+        "proptest-generated histories: window type (3), limit 1-5, period 10-600 ms incl. float-unlucky periods, timeout from {0, P/2, P-1, P, P+1, 1.5P, 3P, uniform}, 1-14/24 callers on 1-3 clones arriving in bursts and at gaps from {0, 1, uniform, P-1, P, P+1, 2P-1, 2P, 2P+1, 3P, 4P}, optional cancellation, poll-order choices; virtual clock. Oracle on the timestamps of inner entries only: fixed/counter - a partition of the admission sequence into consecutive windows >= P with <= limit each must exist (dynamic program); sliding log - every limit+1 consecutive admissions span >= P.Also generated: event listeners, the wrapped service withholding readiness for an interval, starved first polls, service handles dropped after the last call, and two special period shapes - a window that never ends (refresh_period Duration::MAX / u64::MAX s / i64::MAX s / 300 years: at most limit calls are ever admitted) and a period with a sub-millisecond part (800 us, 200 us, p+0.9 ms, p+0.1 ms: at most limit admissions per instant; sliding log spans >= the period). Non-trivial: >= 2 callers waiting at once with a waited admission, or an arrival exactly on a window boundary with the window full; distinct by hash of the case".into()
     }
     fn assumptions(&self) -> Vec<String> {
         vec![
